@@ -234,7 +234,9 @@ def run(ctx):
                         segs.append(dict(hasMeta=True, newList=True, interleaved=False, big=big, rawFlag=True, daqmxFlag=False, lengthUnknown=False, version=4713,
                                          padding=0, objs=objs, chunks=[[part]] if part else []))
                 else:
-                    segs = gs.one_channel_file(ty, [packed[:cut], packed[cut:]], props, [], [], big=big)
+                    # (fixed-width types also with the interleaved flag: a one-channel interleaved segment holds the same bytes, but is read
+                    # by the other reader class)
+                    segs = gs.one_channel_file(ty, [packed[:cut], packed[cut:]], props, [], [], big=big, interleaved=(ty != 0x20 and rnd.random() < 0.3))
                 e = model.ask(gen_files.to_line(segs))
                 if not e.get("ok") or not e.get("wf"):
                     disagreements.append(dict(what="generated file not well-formed: %s" % str(e)[:100]))
@@ -315,7 +317,7 @@ def run(ctx):
                 coverage=dict(evaluations=stats["reads"], distinct_nontrivial=len(combos),
                               rule="eager, lazy and lazy with memmap_dir; every readable raw type (17) x {no scaling, Linear, Polynomial, Table, Add, Subtract, RTD, Strain, Thermistor, Thermocouple, AdvancedAPI, "
                                    "random graph} (scalings on numeric types) x {eager, lazy} x {[:], read_data(), windows incl. empty and out-of-range, slices incl. empty and "
-                                   "stepped, integer index, .data, every channel chunk} with 0-7 values split over two segments, both byte orders; distinct_nontrivial = "
+                                   "stepped, integer index, .data, every channel chunk} with 0-7 values split over two segments, both byte orders, contiguous and (fixed-width types, 30 %) interleaved; distinct_nontrivial = "
                                    "distinct (raw type, scale kind, empty?) combinations; plus generated DAQmx files (format-changing and digital-line scalers of every type) made readable through NI_Number_Of_Scales: every read of every kind against channel.dtype",
                               samples=samples or [dict(note="none")], counts=stats))
 
